@@ -587,10 +587,14 @@ pub fn step(st: &mut DualState, t: &[&str]) -> Option<String> {
             use num_traits::Signed;
             let a = st.vals.get(&i.parse().ok()?)?.clone();
             guarded(
-                || match &a {
-                    Number::F64(f) => format!("{} {}", f.is_sign_positive() as u8, f.is_sign_negative() as u8),
-                    Number::Dual(d) => format!("{} {}", d.is_positive() as u8, d.is_negative() as u8),
-                    Number::Dual2(d) => format!("{} {}", d.is_positive() as u8, d.is_negative() as u8),
+                || {
+                    let typed = match &a {
+                        Number::F64(f) => format!("{} {}", f.is_sign_positive() as u8, f.is_sign_negative() as u8),
+                        Number::Dual(d) => format!("{} {}", d.is_positive() as u8, d.is_negative() as u8),
+                        Number::Dual2(d) => format!("{} {}", d.is_positive() as u8, d.is_negative() as u8),
+                    };
+                    // and through the generic container
+                    format!("{} {} {}", typed, a.is_positive() as u8, a.is_negative() as u8)
                 },
                 "panic",
             )
